@@ -355,8 +355,13 @@ func runC15(r *Run) {
 		cut := map[edge]bool{}
 		for _, br := range branchesIn(gb) {
 			if loadOfField(br.Info.Root, "session.Config.AbsoluteTimeout") {
-				// AbsoluteTimeout > 0 false edge: feature off
-				s := br.slotWhenRel(false)
+				// the edge on which the feature is off: `> 0` / `!= 0` false, `<= 0` / `== 0` true
+				off := false
+				switch br.Info.Op {
+				case token.LEQ, token.EQL, token.LSS:
+					off = true
+				}
+				s := br.slotWhenRel(off)
 				cut[edge{br.If.Block(), s}] = true
 			}
 		}
@@ -564,8 +569,8 @@ func runC15(r *Run) {
 		var bad []fnd
 		r.P.AllFuncs(sessPkg, func(f *ssa.Function) {
 			type rel struct {
-				in    ssa.Instruction
-				recv  ssa.Value
+				in     ssa.Instruction
+				recv   ssa.Value
 				defer_ bool
 			}
 			var rels []rel
@@ -688,6 +693,31 @@ func runC15(r *Run) {
 				if hasZeroRet {
 					for _, rt := range nonZeroRets {
 						sites = append(sites, site{rt.Block(), rt})
+					}
+				}
+				// the expiry written straight into the entry under the guard (the zero alternative is the field's zero value)
+				for _, b := range f.Blocks {
+					for _, in := range b.Instrs {
+						st, ok := in.(*ssa.Store)
+						if !ok {
+							continue
+						}
+						fa, ok := st.Addr.(*ssa.FieldAddr)
+						if !ok || !isInt(st.Val.Type()) {
+							continue
+						}
+						if bo, isSum := stripValue(st.Val).(*ssa.BinOp); !isSum || bo.Op != token.ADD {
+							continue // a phi or a helper's answer: judged where it is computed (the phi / return forms above)
+						}
+						if dependsOn(st.Val, func(v ssa.Value) bool {
+							c, ok := v.(*ssa.Call)
+							return ok && strings.HasSuffix(calleeName(&c.Call), ".Timestamp")
+						}) == nil {
+							continue
+						}
+						if _, isLocal := fa.X.(*ssa.Alloc); isLocal {
+							sites = append(sites, site{b, st})
+						}
 					}
 				}
 				for _, st := range sites {
